@@ -302,7 +302,7 @@ func registerISAModels(w *World) {
 type IsaEntry struct {
 	Name    string
 	Kind    map[string]string // operand -> "v": the encoding field can only name a VGPR
-	Ops     map[string]int // operand -> width in bits (D, S0, S1, S2, SDST)
+	Ops     map[string]int    // operand -> width in bits (D, S0, S1, S2, SDST)
 	Eff     map[string]*Expr
 	Lets    []isaLet
 	PerLane bool
@@ -833,10 +833,11 @@ func (ev *isaEval) guard(name string, fn func()) {
 }
 
 // isaClassVars: names usable in the input-class expressions of known findings on ALU handlers.
-//   <op>neg     the operand is an inline integer constant with a negative value
-//   <op>int     ... is an inline integer constant;  <op>reg  ... is a register
-//   <op>val     the 64-bit value ReadOperand returns for lane 0 (scalar handlers)
-//   SCC VCC EXEC  architectural state before the instruction
+//
+//	<op>neg     the operand is an inline integer constant with a negative value
+//	<op>int     ... is an inline integer constant;  <op>reg  ... is a register
+//	<op>val     the 64-bit value ReadOperand returns for lane 0 (scalar handlers)
+//	SCC VCC EXEC  architectural state before the instruction
 func isaClassVars(c *Ctx, st *State, e *IsaEntry, sc *Scope) {
 	w := c.W
 	inst := c.UF("G_inst", SRef)
